@@ -147,7 +147,10 @@ def make_inputs(kernel, size, vseed):
                 _vals(rs, (dim, n), -5, 5)]
     elif kernel in ("calc_field_krige", "calc_field_krige_and_variance"):
         a = _vals(rs, (m, m))
-        args = [a + a.T, _vals(rs, (m, n)), _vals(rs, (m,))]
+        # the kernels are defined for any matrix: symmetric (kriging) and not (pseudo inverses
+        # supplied by the user), in any memory layout a typed memory view accepts
+        mat = a + a.T if rs.random() < 0.5 else a
+        args = [mat, _vals(rs, (m, n)), _vals(rs, (m,))]
     elif kernel in ("unstructured", "directional"):
         fcnt = size.get("f", 1)
         hav = size.get("dist") == "h"
@@ -183,6 +186,20 @@ def make_inputs(kernel, size, vseed):
         kw = {"estimator_type": size.get("est", "m")}
     else:
         raise HarnessError(kernel)
+    # memory layout of the 2-d inputs (C, Fortran, strided view): values are the same
+    lay = size.get("layout", "C")
+    if lay != "C":
+        out = []
+        for a in args:
+            if isinstance(a, np.ndarray) and a.ndim == 2 and a.dtype == np.double:
+                if lay == "F":
+                    a = np.asfortranarray(a)
+                else:
+                    big = np.zeros((a.shape[0], a.shape[1] * 2))
+                    big[:, ::2] = a
+                    a = big[:, ::2]
+            out.append(a)
+        args = out
     return args, kw
 
 
@@ -356,7 +373,8 @@ class Machine:
         else:
             n = rng.randint(1, 8)
             m = rng.randint(1, 6)
-        size = {"dim": rng.choice([1, 2, 3] + ([4] if big else [])), "n": n, "m": m}
+        size = {"dim": rng.choice([1, 2, 3] + ([4] if big else [])), "n": n, "m": m,
+                "layout": rng.choice(["C", "C", "F", "strided"])}
         if kernel in ("unstructured", "directional", "structured", "ma_structured"):
             size["est"] = rng.choice(["m", "c"])
         if kernel in ("unstructured", "directional"):
@@ -381,6 +399,12 @@ class Machine:
             size["m"] = min(size["m"], 30 if KERNELS[kernel] == "estimator" else 200)
             return {"op": "ompbuild", "kernel": kernel, "size": size,
                     "vseed": rng.randint(0, 2 ** 31), "reps": rng.choice([2, 5, 10])}
+        if r > 0.97:
+            return {"op": "vario_dirs", "latlon": True, "dim": 2, "n": rng.randint(4, 20),
+                    "bins": rng.randint(1, 4), "vseed": rng.randint(0, 2 ** 31),
+                    "geo_scale": rng.choice([6371.0, 57.29577951308232, 1.0]),
+                    "angles_deg": [], "tol_deg": 0,
+                    "est": rng.choice(["matheron", "cressie"])}
         if r > 0.93:
             return {"op": "vario_dirs", "dim": rng.choice([2, 2, 3]), "n": rng.randint(4, 25),
                     "bins": rng.randint(1, 4), "vseed": rng.randint(0, 2 ** 31),
@@ -466,7 +490,7 @@ class Machine:
                                 maxdiff=maxdiff(a, b), trace=[str(t) for t in rt.trace[:60]])
         # (c) sequential interpretation vs compiled artefact
         try:
-            art = compiled(kernel)(*[np.array(a) for a in args], **kw)
+            art = compiled(kernel)(*args, **kw)
         except ValueError:
             raise Violation("C15.artefact_vs_source." + kernel, error="artefact raised")
         art = art if isinstance(art, tuple) else (art,)
@@ -543,8 +567,32 @@ class Machine:
 
     # -- public estimator with several directions == defining sums (every direction counts
     #    all pairs inside its own cone; `separate_dirs` is only an optimisation)
+    def _vario_latlon(self, op):
+        """vario_estimate(latlon=True, geo_scale) called twice with the caller's same float64
+        bin_edges array: both results must equal the haversine defining sums."""
+        import gstools as gs
+        rs = random.Random(op["vseed"])
+        n = op["n"]
+        pos = np.array([_vals(rs, (n,), -80, 80), _vals(rs, (n,), -170, 170)])
+        gsc = op["geo_scale"]
+        edges = np.linspace(0.0, 3.0, op["bins"] + 1) * gsc
+        for rep in range(2):
+            f = _vals(rs, (1, n))
+            res = gs.vario_estimate(pos, f[0], bin_edges=edges, latlon=True, geo_scale=gsc,
+                                    return_counts=True, estimator=op["est"])
+            ref = defining("unstructured", [f, np.linspace(0.0, 3.0, op["bins"] + 1), pos],
+                           {"estimator_type": op["est"][0], "distance_type": "h"})
+            self.ctx.observations += 1
+            self.ctx.probe("wrapper.vario_estimate_latlon")
+            if not np.array_equal(np.asarray(res[2]), ref[1]) or not close(res[1], ref[0],
+                                                                          rtol=1e-10):
+                raise Violation("C15.defining_sums.vario_estimate_latlon", call=rep + 1,
+                                counts=np.asarray(res[2]).tolist(), want=ref[1].tolist())
+
     def _vario_dirs(self, op):
         import gstools as gs
+        if op.get("latlon"):
+            return self._vario_latlon(op)
         rs = random.Random(op["vseed"])
         dim = op["dim"]
         n = op["n"]
